@@ -2,6 +2,7 @@ import Proofs.Delta
 import Proofs.DeltaRoot
 import Proofs.DeltaFlat
 import Proofs.DeltaList
+import Proofs.DeltaNested
 import Properties.C02
 /-!
 # C01 — applying `Delta(DeepDiff(t1, t2))` to `t1` reproduces `t2`
@@ -211,5 +212,44 @@ example : let xs : List PyVal := [.int 1, .int 2, .int 3]
     simp [xs, ys, listT, childTreeI, leafDiff, typeName, numEq, numOf, pow10]
   rw [e1, e2]
   omega
+
+/-! ### nested dictionaries, end to end -/
+
+/-- **Round trip for every pair of nested dictionaries** — string keys at every level (no key twice in one dictionary; with
+`ignore_private_variables` on, no key starting with `__`), scalar leaves, any depth and width — under every ordered
+configuration without path restrictions and every `threshold_to_diff_deeper` (so including "too different" sub-dictionaries
+replaced as a whole), directed or not, with or without `always_include_values`: whatever mix of keys added, removed,
+changed in value or in type, at whatever levels, `t1 + Delta(DeepDiff(t1, t2))` is a value `== t2`, with no error logged.
+`J ip v` is that universe (`Proofs/DeltaNested.lean`); the proof is an induction on the nesting in which a payload entry
+whose path starts with a key acts on the child under that key. -/
+theorem C01_nested_dict_roundtrip (cfg : DCfg) (hp : Diff.Plain cfg) (al : Align) (hashOf : PyVal → String) (directed always : Bool)
+    (v1 v2 : PyVal) (j1 : J cfg.ignorePrivate v1) (j2 : J cfg.ignorePrivate v2) :
+    ∃ r, applyDelta false (buildDelta directed always v1 v2 (deepDiff cfg al hashOf v1 v2)) v1 = { root := r } ∧ pyEq r v2 = true :=
+  nested_roundtrip cfg hp al hashOf false directed always (fun h => by cases h) v1 v2 j1 j2
+
+/-- the universe is inhabited by values of depth three with every kind of difference between them -/
+example : J false (.dict [(.str "a", .dict [(.str "x", .int 1), (.str "y", .dict [(.str "deep", .str "v")])]), (.str "b", .none)]) ∧
+    J false (.dict [(.str "a", .dict [(.str "x", .str "1"), (.str "z", .dict [])]), (.str "c", .float 25 1)]) := by
+  have hb : ∀ v, isBasic v = true → J false v := fun v h => J.basic h
+  constructor
+  · refine J.dict (by simp [StrKeys]) (by simp) (fun _ _ => rfl) ?_
+    intro p hp; simp at hp
+    rcases hp with rfl | rfl
+    · refine J.dict (by simp [StrKeys]) (by simp) (fun _ _ => rfl) ?_
+      intro p hp; simp at hp
+      rcases hp with rfl | rfl
+      · exact hb _ rfl
+      · refine J.dict (by simp [StrKeys]) (by simp) (fun _ _ => rfl) ?_
+        intro p hp; simp at hp; subst hp; exact hb _ rfl
+    · exact hb _ rfl
+  · refine J.dict (by simp [StrKeys]) (by simp) (fun _ _ => rfl) ?_
+    intro p hp; simp at hp
+    rcases hp with rfl | rfl
+    · refine J.dict (by simp [StrKeys]) (by simp) (fun _ _ => rfl) ?_
+      intro p hp; simp at hp
+      rcases hp with rfl | rfl
+      · exact hb _ rfl
+      · exact J.dict (by simp [StrKeys]) (by simp) (fun _ _ => rfl) (by intro p hp; simp at hp)
+    · exact hb _ rfl
 
 end Delta
